@@ -15,8 +15,15 @@
 
 static dispatch_queue_t make_target(vf_rng_t *r, int *serial)
 {
-	uint32_t k = vf_rnd_n(r, 6);
+	uint32_t k = vf_rnd_n(r, 8);
 	*serial = 0;
+	if (k >= 6) {
+		/* an overcommit root queue as the direct target: k == 7 is what dispatch_source_create(..., NULL) picks by default
+		 * (sources on it are re-driven by the unlock path alone, not by the post-handler re-check) */
+		dispatch_queue_t g = dispatch_get_global_queue(k == 6 ? DISPATCH_QUEUE_PRIORITY_HIGH : DISPATCH_QUEUE_PRIORITY_DEFAULT, DISPATCH_QUEUE_OVERCOMMIT);
+		dispatch_retain(g);
+		return g;
+	}
 	if (k == 4) {
 		/* a workloop serialises the handlers like a serial queue */
 		*serial = 1;
@@ -184,8 +191,11 @@ static void run_data_trial(int idx)
 	dispatch_queue_t tq = make_target(&r, &serial);
 	static dispatch_source_type_t types[3];
 	types[0] = DISPATCH_SOURCE_TYPE_DATA_ADD; types[1] = DISPATCH_SOURCE_TYPE_DATA_OR; types[2] = DISPATCH_SOURCE_TYPE_DATA_REPLACE;
-	t->ds = dispatch_source_create(types[t->type], 0, 0, tq);
+	int default_target = tq == dispatch_get_global_queue(DISPATCH_QUEUE_PRIORITY_DEFAULT, DISPATCH_QUEUE_OVERCOMMIT) && vf_rnd_n(&r, 2);
+	t->ds = dispatch_source_create(types[t->type], 0, 0, default_target ? NULL : tq);
 	if (!t->ds) vf_fail("dispatch_source_create(%s) failed", d_names[t->type]);
+	if (default_target) vf_count("data_sources_on_the_default_target_queue", 1);
+	if (dispatch_queue_get_label(tq) && strstr(dispatch_queue_get_label(tq), "overcommit")) vf_count("data_sources_directly_on_an_overcommit_root_queue", 1);
 	dispatch_set_context(t->ds, t);
 	vf_trace_watch_reset(); vf_trace_watch((char *)t->ds + 56);   /* dq_state of the source */
 	/* function and block forms; the block form captures the trial (Block_copy / dispose paths, ASan) */
@@ -529,6 +539,14 @@ static void run_cancel_case(vf_rng_t *r, const char *desc, int forced_kind)
 		if (c->kind == K_DATA) dispatch_source_merge_data(c->ds, 1);
 		pthread_create(&fth, NULL, feeder_main, &f); have_feeder = 1;
 		while (!atomic_load(&c->cancel_ret)) { struct timespec w = { 0, 50000 }; nanosleep(&w, NULL); }
+	} else if (c->point == P_CANCEL_AND_WAIT && vf_rnd_n(r, 3) == 0) {
+		/* dispatch_source_cancel_and_wait on a source that was never activated: it is activated as a side effect, the
+		 * call returns, and the source ends in the same final state as on the other routes */
+		atomic_store(&c->cancel_origin, 3);
+		atomic_store(&c->cancel_call, vf_stamp());
+		dispatch_source_cancel_and_wait(c->ds);
+		c->cwait_ret = vf_stamp();
+		vf_count("cancel_and_wait_on_inactive_source", 1);
 	} else if (c->point == P_BEFORE_ACTIVATE) {
 		atomic_store(&c->cancel_origin, 3);
 		atomic_store(&c->cancel_call, vf_stamp());
